@@ -1,5 +1,6 @@
 import logging
 from jax.numpy import ndarray
+from numpy import ndarray as numpy_ndarray
 from .util import GaussianProcessType
 from .base_cov import Covariance
 from .validation import (
@@ -283,7 +284,9 @@ def validate_normalize_parameter(normalize, unique_times):
             raise ValueError(
                 f"Missing time point(s) in normalization dictionary: {missing_times}"
             )
-    elif isinstance(normalize, (list, ndarray)) and len(normalize) != len(unique_times):
+    elif isinstance(normalize, (list, ndarray, numpy_ndarray)) and len(normalize) != len(
+        unique_times
+    ):
         raise ValueError(
             "Length of the normalize list or array must match the number of unique time points."
         )
